@@ -2,8 +2,8 @@ import WuffsVerif.Common.Line
 import WuffsVerif.Model.Interval
 /-! Line driver for C06 (lib/interval).  Ops (bounds: decimal, or `inf` = nil):
   add|sub|mul|quo|lsh|rsh|and|or|unite|intersect xlo xhi ylo yhi  -> ok lo hi | fail | panic
-  andmax|ormax xlo xhi ylo yhi -> v n
-  bfr n -> v n
+  andmax|ormax xlo xhi ylo yhi -> v n | panic
+  bfr n -> v n | panic
   split2|split3 lo hi -> ...
 -/
 open WuffsVerif WuffsVerif.Line WuffsVerif.Interval
@@ -44,12 +44,17 @@ def c06Step (l : List String) : String :=
       | "andmax" | "ormax" =>
         match x.lo, x.hi, y.lo, y.hi with
         | some xl, some xh, some yl, some yh =>
-          "v " ++ toString (if op == "andmax" then andMax xl xh yl yh else orMax xl xh yl yh)
+          match (if op == "andmax" then andMaxP xl xh yl yh else orMaxP xl xh yl yh) with
+          | some v => "v " ++ toString v
+          | none => "panic"
         | _, _, _, _ => "bad-op"
       | _ => "bad-op"
   | ["bfr", n] =>
     match n.toInt? with
-    | some i => "v " ++ toString (bitFillRight i)
+    | some i =>
+      match bitFillRightP i with
+      | some v => "v " ++ toString v
+      | none => "panic"
     | none => "bad-op"
   | [op, a, b] =>
     match parseBound a, parseBound b with
